@@ -82,10 +82,32 @@ pub fn wild_layout(n: usize, nx: usize, rng: &mut Rng, sparse: bool, max_files: 
     if sparse {
         // push one file's content beyond 4 GiB with a hole at the front (and one in the middle)
         let f = rng.usize(0, files.len() - 1);
-        files[f].segs.insert(0, Seg::Hole { n: (1u64 << 32) + rng.below(1 << 20) });
-        let mid = files[f].segs.len() / 2 + 1;
-        let at = mid.min(files[f].segs.len());
-        files[f].segs.insert(at, Seg::Hole { n: rng.range(1 << 20, 1 << 31) });
+        if rng.coin() {
+            files[f].segs.insert(0, Seg::Hole { n: (1u64 << 32) + rng.below(1 << 20) });
+            let mid = files[f].segs.len() / 2 + 1;
+            let at = mid.min(files[f].segs.len());
+            files[f].segs.insert(at, Seg::Hole { n: rng.range(1 << 20, 1 << 31) });
+        } else {
+            // blocks of this file in height order, and between two of them a hole of k*2^32 plus a little:
+            // the hop from the end of one block to the start of the next is ~2^32 (its low 32 bits are small)
+            let mut act: Vec<usize> = files[f].segs.iter().filter_map(|s| if let Seg::Active { i } = s { Some(*i) } else { None }).collect();
+            act.sort();
+            files[f].segs.retain(|s| !matches!(s, Seg::Active { .. }));
+            let cut = rng.usize(1, act.len().max(1));
+            for (k, i) in act.iter().enumerate() {
+                if k == cut.min(act.len() - 1) && act.len() > 1 {
+                    let kk = rng.range(1, 2);
+                    // just above and just below a multiple of 2^32 (the low 32 bits of the hop look like a short
+                    // forward or backward move)
+                    let d = *rng.pick(&[0u64, 1, 4, 5, 8, 12, 100, 5000, 30000]);
+                    files[f].segs.push(Seg::Hole { n: if rng.coin() { (kk << 32) + d } else { (kk << 32) - d } });
+                }
+                files[f].segs.push(Seg::Active { i: *i });
+            }
+            if act.len() == 1 {
+                files[f].segs.insert(0, Seg::Hole { n: (1u64 << 32) + rng.below(100) });
+            }
+        }
     }
     // extra directory entries that must be ignored
     let mut extra_files = vec![];
